@@ -106,6 +106,18 @@ Definition h_transfer (w : lworld) (old new : nat) (signer new_auth fee_wallet :
                  (acct_key new) (ma_migrated_from A) (ma_emissions_dest A) ts in
   Ok (set_macct (set_macct w old (Some A')) new (Some N)).
 
+(* transfer_to_new_account_pda: the same constraints and the same handler body, except that the SOURCE's last_update is left
+   alone (the new account lives at a PDA, which the slot-based world does not distinguish from a fresh keypair account) *)
+Definition keep_last_update (w0 w : lworld) (old : nat) : lworld :=
+  match get_macct w0 old, get_macct w old with
+  | Ok A0, Ok A =>
+      set_macct w old (Some (mkMA (ma_la A) (ma_flags A) (ma_authority A) (ma_group A) (ma_migrated_to A)
+                                  (ma_migrated_from A) (ma_emissions_dest A) (ma_last_update A0)))
+  | _, _ => w
+  end.
+Definition h_transfer_pda (w : lworld) (old new : nat) (signer new_auth fee_wallet : Z) : res lworld :=
+  let* w' := h_transfer w old new signer new_auth fee_wallet in Ok (keep_last_update w w' old).
+
 (* operations of the correspondence suite `acctlife` *)
 Inductive lop :=
 | LClose (a : nat) (signer : Z)
